@@ -110,6 +110,14 @@ def indices(draw, shape, neg_tensor=True, neg_int_matrix=True):
             flat = draw(st.lists(st.integers(lo, size - 1), min_size=n, max_size=n))
             vals = gen._nest(flat, list(shp))
             items[p] = {"k": "list" if (k == "list" and len(shp) == 1) else "tensor", "v": vals}
+    # the SAME non-trivial slice for rows and columns of a square operator (a principal sub-matrix: classes may return a
+    # structured result for it - stepped ones in particular)
+    if nd >= 2 and shape[-1] == shape[-2] and (nd - 1) in items and (nd - 2) in items and draw(st.integers(0, 5)) == 0:
+        sl = {"k": "slice", "v": _slice(draw, shape[-1])}
+        if draw(st.booleans()):
+            sl["v"][2] = draw(st.sampled_from([2, 2, 3]))
+        items[nd - 1] = sl
+        items[nd - 2] = {"k": "slice", "v": list(sl["v"])}
     out = []
     for p in range(npre):
         out.append(items[p])
